@@ -77,7 +77,7 @@ CHECKS = {
             "Trusted: nothing beyond the Go runtime (the oracle is a round trip through the library itself); the wire model is only used to build the valid frames that are mutated.",
             "DESIGN.md §4 C08"),
     "C09": ("rapid-generated and hand-written hostile inputs per decoder entry point + native go fuzzing of four targets (thorough); totality oracle: no panic, 30 s loop watchdog, input buffer and its spare capacity byte-identical afterwards",
-            "Exploration: the frame decode / command decode / decrypt chain (binary and base64), every exported type with UnmarshalBinary in the five packages (both directions, lengths drawn from each type's accepted lengths), json.Unmarshal into the backend payloads from structure-aware hostile JSON, and the text / Scan decoders are executed on generated inputs; a panic, a watchdog hit, or a write to the input buffer or behind it is a violation. Linear time is only approximated by the loop watchdog and the bound (decoded items <= input bytes).",
+            "Exploration: the frame decode / command decode / decrypt chain (binary and base64), every exported type with UnmarshalBinary in the five packages (both directions, lengths drawn from each type's accepted lengths), json.Unmarshal into the backend payloads from structure-aware hostile JSON, and the text / Scan decoders are executed on generated inputs; a panic, a watchdog hit, or a write to the input buffer or behind it is a violation. Linear time is approximated by the loop watchdog, the bound (decoded items <= input bytes) and an allocation-growth check (8-fold input may allocate at most 24-fold) on the stream decoders.",
             "Trusted: the watchdog bound (30 s for inputs <= 600 bytes, six orders of magnitude above the observed cost); a driver time-out is reported as inconclusive, never as a violation.",
             "DESIGN.md §4 C09"),
     "C10": ("rapid-generated aliasing / guard-byte / read-only / reuse-differential / band-instance checks over every decoder type, plus generated multi-goroutine op lists under the race detector",
